@@ -191,6 +191,7 @@ pub fn two_party(case: &str, seed: u64, k: &Knobs, content: Vec<u8>) -> Scenario
         final_reports: false,
         plant: vec![],
         dropper: None,
+        seq_start: None,
     }
 }
 
